@@ -14,7 +14,6 @@ Fixpoint mon_open (k : nat) (opn : list nat) (tr : list vevent) : bool :=
 
 Section Trace.
 Variable c : cfg.
-Hypothesis Hdone : donech c = true.
 Hypothesis Hnorep : norepeat c.
 Notation n := (nsteps c).
 
@@ -42,7 +41,8 @@ Proof.
   all: try match goal with
   | |- context [after c ?s ?i ?ok ?e] =>
       let H := fresh "HAC" in let sa := fresh "sa" in let E := fresh "Esa" in
-      pose proof (after_cases c Hdone Hnorep s i ok e) as H; remember (after c s i ok e) as sa eqn:E; clear E; destruct H
+      pose proof (after_cases c Hnorep s i ok e) as H; remember (after c s i ok e) as sa eqn:E; clear E; destruct H;
+      try (let F := fresh "Hfp" in destruct (fphase_cases c) as [F|F]; rewrite F in * )
   end.
   all: unfold set_nd, set_pc, set_err, set_hst, upd; cbn [nd].
   all: try reflexivity.
@@ -102,7 +102,7 @@ Proof.
           + split; [intros _; auto|intros _; left; reflexivity].
           + split; [intros [X|X]; [congruence|exact X]|intros X; right; exact X]. }
       pose proof (opn_length _ _ Ho1) as Hlen. simpl in Hlen.
-      destruct (C15_bound_all c Hdone Hnorep s1 Hr1 Hk) as (_ & _ & _ & Hex).
+      destruct (C15_bound_all c Hnorep s1 Hr1 Hk) as (_ & _ & _ & Hex).
       apply andb_true_iff. split; [apply Nat.leb_le; lia|]. eapply IH; eauto.
     + (* a command ends *)
       pose proof (end_exec _ _ _ _ Hs) as Hnew. destruct Ho as [Hnd Hin].
@@ -112,7 +112,7 @@ Proof.
       * split; [intros [X _]; exact X|intros X; split; [exact X|exact Hne']].
   - (* hidden label *)
     eapply IH; eauto. destruct Ho as [Hnd Hin]. split; [exact Hnd|].
-    intros j. rewrite (hidden_keeps_exec _ _ _ (reach_inv c Hdone Hnorep s Hr) Hs Hv j). apply Hin.
+    intros j. rewrite (hidden_keeps_exec _ _ _ (reach_inv c Hnorep s Hr) Hs Hv j). apply Hin.
 Qed.
 
 (* C15 on the visible trace of every execution *)
@@ -151,7 +151,7 @@ Proof.
         -- split; [intros [_ X]; congruence|intros [_ X]; discriminate].
         -- split; [intros [X _]; exact X|intros X; split; [exact X|exact Hne']].
     + eapply IH; eauto. destruct Ho as [Hnd Hin]. split; [exact Hnd|].
-      intros j. rewrite (hidden_keeps_exec _ _ _ (reach_inv c Hdone Hnorep s Hr) Hs Hv j). apply Hin.
+      intros j. rewrite (hidden_keeps_exec _ _ _ (reach_inv c Hnorep s Hr) Hs Hv j). apply Hin.
 Qed.
 
 Lemma opn_init : Opn (init c) [].
@@ -184,7 +184,7 @@ Proof.
       + destruct (IH _ H) as (s1 & s2 & A & B & C0). exists s1, s2. auto.
       + discriminate H. }
   destruct Hsplit as (s1 & s2 & H1 & H2 & H3).
-  destruct (C01_execution c Hdone Hnorep ls1 i ls2 s1 s2 s H1 H2 H3 d Hd) as (_ & _ & Hne & Hnever).
+  destruct (C01_execution c Hnorep ls1 i ls2 s1 s2 s H1 H2 H3 d Hd) as (_ & _ & Hne & Hnever).
   split.
   - intros Hin. pose proof (opn_after_run (init c) [] ls1 s1 ltac:(exists []; reflexivity) opn_init H1) as [_ Ho].
     apply Ho in Hin. destruct Hin as [_ Hin]. unfold is_exec in Hin. destruct (ph (nd s1 d)); try discriminate. congruence.
